@@ -171,6 +171,19 @@ def gen_emit(rng):
                     old_aliases.append([k, v if rng.random() < 0.5 else None])
             else:
                 old_aliases.append([k, None])
+    if opts["isEups"] and not opts["fwd"] and rng.random() < 0.8:
+        # unsetup eups: the variables app.setup drops are in the caller's environment, and Eups.setup leaves them
+        # untouched, changes them or has removed them already
+        for k in ("EUPS_PATH", "EUPS_PKGROOT", "EUPS_SHELL"):
+            if rng.random() < 0.8:
+                v = gen_value(rng, claim)
+                old = [x for x in old if x[0] != k] + [[k, v]]
+                new = [x for x in new if x[0] != k]
+                r = rng.random()
+                if r < 0.6:
+                    new.insert(rng.randint(0, len(new)), [k, v])
+                elif r < 0.85:
+                    new.insert(rng.randint(0, len(new)), [k, gen_value(rng, claim)])
     forgotten = [k for k, _ in old if rng.random() < 0.15] if rng.random() < 0.3 else []
     return {"kind": "emit", "old": old, "forgotten": forgotten, "new": new, "aliases": aliases,
             "oldAliases": old_aliases, "opts": opts}
@@ -275,6 +288,23 @@ def gen_stack(rng):
                      "local": fwd and rng.random() < 0.2})
         state = fwd
     extra = [["KEEP", "k e e p"], ["LD_LIBRARY_PATH", "/usr/lib"]] if rng.random() < 0.5 else [["KEEP", "k"]]
+    if rng.random() < 0.2:
+        # eups managing itself: `setup eups` ... `unsetup eups` must leave EUPS_PATH / EUPS_PKGROOT / EUPS_SHELL unset
+        lines = ["envPrepend(PATH, ${PRODUCT_DIR}/bin)"]
+        if rng.random() < 0.6:
+            lines.append("envAppend(EUPS_PATH, /opt/extra)")
+        if rng.random() < 0.5:
+            lines.append("envSet(EUPS_DIR, ${PRODUCT_DIR})")
+        if rng.random() < 0.3:
+            lines.append("envSet(EUPS_PKGROOT, http://z/pkgs)")
+        d = weird_dirname(rng)
+        prods.append({"name": "eups", "version": "1", "dir": d,
+                      "tablemode": "external" if any(c in d for c in "()|+*?[]{}^$\\") else "ups",
+                      "table": "\n".join(lines) + "\n"})
+        if rng.random() < 0.6:
+            extra.append(["EUPS_PKGROOT", rng.choice(["http://x/pkgs|http://y", "/my pkgs"])])
+        reqs = reqs[:rng.randint(0, 2)] + [{"product": "eups", "fwd": True, "force": rng.random() < 0.3, "version": None, "local": False},
+                                           {"product": "eups", "fwd": False, "force": rng.random() < 0.3, "version": None, "local": False}]
     return {"kind": "stack", "products": prods, "requests": reqs, "extra": extra}
 
 
@@ -484,13 +514,21 @@ def _stack_request(env_before, req):
     M = common.eups_mod("Eups")
     with _quiet(), contextlib.redirect_stdout(io.StringIO()):
         E = M.Eups(readCache=False, force=req["force"], quiet=1)
+        pre = []
+        real_setup = E.setup
+
+        def recording_setup(*a, **kw):          # os.environ as Eups.setup leaves it, before app.setup's own edits
+            r = real_setup(*a, **kw)
+            pre[:] = [list(x) for x in os.environ.items()]
+            return r
+        E.setup = recording_setup
         if req.get("local"):             # setup -r <directory>
             E.selectVRO(productDir=req["dir"])
             cmds = app.setup(req["product"], None, productRoot=req["dir"], eupsenv=E, fwd=req["fwd"])
         else:
             E.selectVRO(versionName=req["version"])
             cmds = app.setup(req["product"], req["version"], eupsenv=E, fwd=req["fwd"])
-    return {"cmds": cmds, "old": [list(x) for x in E.oldEnviron.items()], "cur": [list(x) for x in os.environ.items()],
+    return {"cmds": cmds, "pre": pre, "old": [list(x) for x in E.oldEnviron.items()], "cur": [list(x) for x in os.environ.items()],
             "aliases": [list(x) for x in E.aliases.items()], "oldAliases": [list(x) for x in E.oldAliases.items()]}
 
 
@@ -544,6 +582,8 @@ def impl_stack(case):
             if st["cmds"] == ["false"]:
                 continue
             env = st["cur"]                 # the next command starts from the environment eups computed
+            if "EUPS_PATH" not in dict(env):
+                break                       # unsetup eups: nothing can follow
         os.environ.clear()
         os.environ.update(saved)
         return {"steps": steps, "root": root}
@@ -718,8 +758,10 @@ def evaluate(ctx, cases):
             for j, st in enumerate(io_["steps"]):
                 if "cmds" in st and st["cmds"] != ["false"]:
                     where.append((i, j))
-                    reqs.append({"m": "c05", "op": "emit", "old": st["old"], "new": st["cur"], "aliases": st["aliases"],
-                                 "oldAliases": st["oldAliases"], "opts": dict(SH_OPTS, fwd=c["requests"][j]["fwd"])})
+                    reqs.append({"m": "c05", "op": "emit", "old": st["old"], "new": st["pre"], "aliases": st["aliases"],
+                                 "oldAliases": st["oldAliases"],
+                                 "opts": dict(SH_OPTS, fwd=c["requests"][j]["fwd"],
+                                              isEups=c["requests"][j]["product"] == "eups")})
         else:
             where.append((i, None))
             reqs.append(model_request(c))
@@ -758,6 +800,8 @@ def evaluate(ctx, cases):
             for j, st in enumerate(io_["steps"]):
                 req = c["requests"][j]
                 ctx.hist("stack:%s%s" % ("setup" if req["fwd"] else "unsetup", "/force" if req["force"] else ""))
+                if req["product"] == "eups" and not req["fwd"] and "cmds" in st and st["cmds"] != ["false"]:
+                    ctx.hist("stack:unsetup-eups")
                 if "exc" in st:
                     ctx.hist("stack:exception=" + st["exc"])
                     continue
@@ -771,7 +815,9 @@ def evaluate(ctx, cases):
                 if m is None or m.get("cmds") != st["cmds"]:
                     ctx.disagree("emitted_commands", sub, _subst(st["cmds"], root), _subst(m, root))
                 compare_shell_model(ctx, sub, st["shells"], sheval[(i, j)], "emitted", root=root)
-                check_delta(ctx, c, sub, st["base"], st["old"], st["cur"], st["shells"], False,
+                if m is not None and "final" in m and m["final"] != st["cur"]:
+                    ctx.disagree("computed_environment", sub, _subst(st["cur"], root), _subst(m["final"], root))
+                check_delta(ctx, c, sub, st["base"], st["old"], st["cur"], st["shells"], req["product"] == "eups",
                             _subst(m and m.get("cmds"), root), _subst(st["cmds"], root), root=root,
                             alias_names=[k for k, _ in st["aliases"]] + [k for k, _ in st["oldAliases"]])
             ctx.case(key=c, nontrivial=any_cmd, sample={"input": c, "impl": io_} if ctx.evaluations % 199 == 0 else None)
@@ -785,6 +831,11 @@ def evaluate(ctx, cases):
             continue
         o = c["opts"]
         ctx.hist("%s:shell=%s%s" % (kind, o["shell"], "/noaction" if o["noaction"] else ""))
+        if kind == "emit" and o["isEups"] and not o["fwd"] and o["shell"] == "sh" and not o["noaction"]:
+            dropped = [k for k in ("EUPS_PATH", "EUPS_PKGROOT", "EUPS_SHELL") if k in dict(c["old"]) and k in dict(c["new"])]
+            ctx.hist("emit:unsetup-eups")
+            if dropped:
+                ctx.hist("emit:unsetup-eups/dropped-variable-in-caller-env")
         ctx.hist("ncmds=%s" % min(len(io_["cmds"]), 10))
         if any(x.startswith("export ") and "='" in x for x in io_["cmds"]):
             ctx.hist("quoted-value")
@@ -870,6 +921,9 @@ def run(ctx):
         raise common.InfraError("degenerate distribution: %d deltas inside the claim" % h.get("delta:in-claim", 0))
     if h.get("text:in-fragment", 0) < 0.3 * max(1, h.get("kind=shell", 0)):
         raise common.InfraError("degenerate distribution: %d shell texts inside the fragment" % h.get("text:in-fragment", 0))
+    if h.get("emit:unsetup-eups/dropped-variable-in-caller-env", 0) < 20 or h.get("stack:unsetup-eups", 0) < 5:
+        raise common.InfraError("degenerate distribution: unsetup of eups itself reached %d (synthetic) / %d (real stack) times"
+                                % (h.get("emit:unsetup-eups/dropped-variable-in-caller-env", 0), h.get("stack:unsetup-eups", 0)))
     if h.get("quoted-value", 0) < 0.2 * max(1, h.get("kind=emit", 0)):
         raise common.InfraError("degenerate distribution: %d cases with a quoted value" % h.get("quoted-value", 0))
 
